@@ -136,7 +136,9 @@ func (t *QuicTransport) exchangeStream(ctx context.Context, payload []byte, stre
 	}
 	rc := make(chan res, 1)
 	go func() {
-		_, err = stream.Write(payload)
+		// Note: Use a local err. This goroutine may outlive the call. Writing
+		// the named result of exchangeStream here races with its return.
+		_, err := stream.Write(payload)
 		if err != nil {
 			stream.CancelRead(_DOQ_REQUEST_CANCELLED)
 			stream.CancelWrite(_DOQ_REQUEST_CANCELLED)
